@@ -73,7 +73,7 @@ def kindStr : Kind → String
 
 def outJson (L : Lib Bytes) (o : Out Bytes) : Json :=
   let frame := encodeFrame L o.msg
-  let p := parts (strip frame)
+  let p := outParts frame
   Json.mkObj [("k", Json.str (kindStr o.kind)), ("a", jhex p.action), ("s", jhex p.spec),
     ("c", jopt jhex (classOf p.data)), ("d", Json.bool (p.data != []))]
 
